@@ -50,7 +50,7 @@ using namespace babylon::anyflow;
 static const int64_t M = 1009;
 
 struct DepD { int tgt = 0; int cnd = -1; bool ev = false; bool ess = false; };
-struct VtxD { bool trivial = false, canfail = false, boolean = false; std::vector<DepD> deps; std::vector<int> emits; };
+struct VtxD { bool trivial = false, canfail = false, boolean = false; char cmode = 's'; std::vector<DepD> deps; std::vector<int> emits; };
 struct Inj { int d; bool empty; int64_t v; int delay; };
 
 struct Ctx {
@@ -61,7 +61,8 @@ struct Ctx {
   std::vector<int64_t> pubval;
   std::vector<bool> pubempty;
   int in_process = 0;
-  bool mon_deps = true, mon_flag = true, mon_input = true;
+  bool mon_deps = true, mon_flag = true, mon_input = true, mon_sealed = true;
+  std::vector<std::thread> threads;       // deferred-commit threads spawned by processors (joined by the main thread)
 };
 static Ctx* C = nullptr;
 
@@ -76,7 +77,7 @@ static size_t g_inj_started = 0, g_inj_done = 0;
 static void crash_handler(int sig) {      // x-mode cases run one per process: report the crash as this case's line
   char buf[512];
   int n = snprintf(buf, sizeof buf, "%s ok steps=0 pre=0 | code=99 vals= ran= act= inj= xp=%d xl=%d crash=%d | once=1 deps=1 flag=1 "
-                   "input=1 dataonce=1 wait=1 fin=1 tgtready=1\n", g_id, g_xpend, g_xlate, sig);
+                   "input=1 dataonce=1 wait=1 fin=1 tgtready=1 sealed=1 observed=1\n", g_id, g_xpend, g_xlate, sig);
   if (write(1, buf, (size_t)n) < 0) {}
   _exit(0);
 }
@@ -95,15 +96,38 @@ static std::vector<std::string> split(const std::string& s, char c) {
   return out;
 }
 
-static void publish(GraphData* gd, int d, bool empty, int64_t v, bool* valid_out) {
+// record a write through a valid committer; a valid, unreleased committer means the data is not sealed yet
+static void note_write(GraphData* gd, int d, bool empty, int64_t v) {
+  if (gd->ready()) C->mon_sealed = false;
+  C->pubs[d]++;
+  C->pubempty[d] = empty;
+  C->pubval[d] = v;
+}
+
+// publish data d through a Committer<int64_t>, exercising the wrapper's special members:
+//   's' construct, write, destroy            'e' construct, write, release() explicitly, destroy
+//   'm' move-construct once, write through the new committer, drop the moved-from one
+//   'M' move-construct twice, move-assign back into the first (moved-from) committer, write, destroy
+static void publish(GraphData* gd, int d, bool empty, int64_t v, bool* valid_out, char mode = 's') {
   auto c = gd->emit<int64_t>();
   bool valid = c.valid();
   if (valid_out) *valid_out = valid;
+  if (mode == 'm') {
+    Committer<int64_t> c1(std::move(c));
+    if (c1.valid()) { note_write(gd, d, empty, v); if (!empty) *c1 = v; }
+    return;
+  }
+  if (mode == 'M') {
+    Committer<int64_t> c1(std::move(c));
+    Committer<int64_t> c2(std::move(c1));
+    c = std::move(c2);
+    if (c.valid()) { note_write(gd, d, empty, v); if (!empty) *c = v; }
+    return;
+  }
   if (valid) {
-    C->pubs[d]++;
-    C->pubempty[d] = empty;
-    C->pubval[d] = v;
+    note_write(gd, d, empty, v);
     if (!empty) *c = v;
+    if (mode == 'e') c.release();
   }
   // release at scope end: seals the data and notifies the successors (may run vertices inline)
 }
@@ -151,13 +175,59 @@ struct Proc : public GraphProcessor {
     }
     C->inputs[v] = in;
     if (vd.canfail && acc % 3 == 0) { C->in_process--; return -1; }
+    std::vector<std::pair<size_t, int64_t>> outs;      // (emit index, value); the others are left to flush_emits (empty)
     for (size_t j = 0; j < vd.emits.size(); ++j) {
       int64_t y = (acc + 17 * (int64_t)j) % M;
-      if (y % 5 == 0) continue;  // left to flush_emits: published empty
-      publish(vertex().anonymous_emit(j), vd.emits[j], false, vd.boolean ? y % 2 : y, nullptr);
+      if (y % 5 == 0) continue;
+      outs.push_back({j, vd.boolean ? y % 2 : y});
+    }
+    if (vd.cmode == 'a') { pending = outs; return 1000; }   // deferred commit, see process(closure)
+    if (vd.cmode == 'w' && outs.size() >= 2) {
+      // move-assign over a VALID committer of another data: the overwritten content (first data) is committed by the
+      // assignment, the second one by the destructor
+      GraphData* ga = vertex().anonymous_emit(outs[0].first); int da = vd.emits[outs[0].first];
+      GraphData* gb = vertex().anonymous_emit(outs[1].first); int db = vd.emits[outs[1].first];
+      {
+        auto ca = ga->emit<int64_t>();
+        auto cb = gb->emit<int64_t>();
+        if (ca.valid()) { note_write(ga, da, false, outs[0].second); *ca = outs[0].second; }
+        ca = std::move(cb);
+        if (ca.valid()) { note_write(gb, db, false, outs[1].second); *ca = outs[1].second; }
+      }
+      for (size_t k = 2; k < outs.size(); ++k) publish(vertex().anonymous_emit(outs[k].first), vd.emits[outs[k].first], false, outs[k].second, nullptr);
+    } else {
+      for (auto& o : outs) publish(vertex().anonymous_emit(o.first), vd.emits[o.first], false, o.second, nullptr, vd.cmode == 'w' ? 'm' : vd.cmode);
     }
     C->in_process--;
     return 0;
+  }
+  std::vector<std::pair<size_t, int64_t>> pending;
+  // deferred commit ('a'): the committers are created here, moved into another thread together with the vertex closure,
+  // filled and released there; the closure is done afterwards
+  void process(GraphVertexClosure&& closure) noexcept override {
+    int rc = process();
+    if (rc != 1000) { closure.done(rc); return; }
+    int v = option<VOpt>()->vid;
+    VtxD& vd = C->vs[v];
+    std::vector<Committer<int64_t>> cs;
+    std::vector<std::pair<int, int64_t>> what;
+    std::vector<GraphData*> gds;
+    for (auto& o : pending) {
+      cs.emplace_back(vertex().anonymous_emit(o.first)->emit<int64_t>());
+      gds.push_back(vertex().anonymous_emit(o.first));
+      what.push_back({vd.emits[o.first], o.second});
+    }
+    C->threads.emplace_back([cs = std::move(cs), what, gds, cl = std::move(closure)]() mutable {
+      verif::advance_time(0);
+      for (size_t k = 0; k < cs.size(); ++k) {
+        Committer<int64_t> c(std::move(cs[k]));
+        if (c.valid()) { note_write(gds[k], what[k].first, false, what[k].second); *c = what[k].second; }
+        verif::advance_time(0);
+      }
+      cs.clear();
+      C->in_process--;
+      cl.done(0);
+    });
   }
 };
 
@@ -213,6 +283,7 @@ int main() {
       vd.trivial = p[0].find('t') != std::string::npos;
       vd.canfail = p[0].find('f') != std::string::npos;
       vd.boolean = p[0].find('b') != std::string::npos;
+      for (char cm : std::string("mMwae")) if (p[0].find(cm) != std::string::npos) vd.cmode = cm;
       if (p.size() > 1 && p[1] != "-")
         for (auto& ds : split(p[1], ',')) {
           DepD d; std::string s = ds;
@@ -246,7 +317,8 @@ int main() {
     std::vector<std::vector<Inj>> injectors;
     if (w[7] != "-") for (auto& th : split(w[7], '|')) { injectors.emplace_back(); parse_inj(th, injectors.back()); }
     std::vector<int> targets;
-    for (auto& t : split(w[8], ',')) { targets.push_back(atoi(t.c_str())); nd = std::max(nd, targets.back() + 1); }
+    bool kmode = w[3][0] == 'K';   // committer program on the data of the graph (no run): see below
+    if (!kmode) for (auto& t : split(w[8], ',')) { targets.push_back(atoi(t.c_str())); nd = std::max(nd, targets.back() + 1); }
 
     // build the graph; vertices are added in a seed-dependent order (the engine must not depend on it)
     HExec exec; exec.inplace = inplace; exec.rng = seed | 1; exec.xmode = inflight;
@@ -284,8 +356,48 @@ int main() {
     for (int t : targets) if (!ctx.data[t]) missing = true;
     if (missing) { printf("%s buildfail-unknown-target\n", id.c_str()); fflush(stdout); continue; }
 
+    if (kmode) {
+      // program: ops ','-separated: N<d> new committer on data d | M<c> move-construct from c | A<dst>:<src> move-assign |
+      // W<c>=<v> write | L<c> clear | R<c> release | D<c> destroy | C<c> cancel.  Committers are numbered in creation order.
+      // Output per data: <index of the op that published it | ->/<content at publication>/<final content>
+      std::vector<std::unique_ptr<Committer<int64_t>>> cs;
+      std::vector<int> pubat(nd, -1); std::vector<std::string> pv(nd, "-");
+      bool pubmove = false, late = false;
+      auto content = [&](int d) { GraphData* g = ctx.data[d]; if (!g || g->empty()) return std::string("E"); const int64_t* p = g->value<int64_t>(); return p ? std::to_string(*p) : std::string("?"); };
+      auto ops = split(w[8], ',');
+      for (size_t k = 0; k < ops.size(); ++k) {
+        const std::string& o = ops[k];
+        int a = atoi(o.c_str() + 1);
+        auto live = [&](int c) { return c >= 0 && c < (int)cs.size() && cs[c]; };
+        switch (o[0]) {
+          case 'N': if (ctx.data[a]) cs.emplace_back(new Committer<int64_t>(ctx.data[a]->emit<int64_t>())); else cs.emplace_back(nullptr); break;
+          case 'M': if (live(a)) cs.emplace_back(new Committer<int64_t>(std::move(*cs[a]))); else cs.emplace_back(nullptr); break;
+          case 'A': { int b = atoi(o.c_str() + o.find(':') + 1); if (live(a) && live(b) && a != b) *cs[a] = std::move(*cs[b]); } break;
+          case 'W': { int64_t v = atoll(o.c_str() + o.find('=') + 1); if (live(a) && cs[a]->valid()) { if (cs[a]->_data && cs[a]->_data->ready()) late = true; **cs[a] = v; } } break;
+          case 'L': if (live(a)) { if (cs[a]->valid() && cs[a]->_data && cs[a]->_data->ready()) late = true; cs[a]->clear(); } break;
+          case 'R': if (live(a)) cs[a]->release(); break;
+          case 'D': if (live(a)) cs[a].reset(); break;
+          case 'C': if (live(a)) cs[a]->cancel(); break;
+        }
+        for (int d = 0; d < nd; ++d)
+          if (ctx.data[d] && pubat[d] < 0 && ctx.data[d]->ready()) { pubat[d] = (int)k; pv[d] = content(d); if (o[0] == 'M') pubmove = true; }
+      }
+      cs.clear();
+      std::string out;
+      for (int d = 0; d < nd; ++d) {
+        if (!ctx.data[d] || !ctx.vs[0].deps.size()) continue;
+        bool isdep = false; for (auto& dd : ctx.vs[0].deps) if (dd.tgt == d) isdep = true;
+        if (!isdep) continue;
+        out += (out.empty() ? "" : " ") + std::string("d") + std::to_string(d) + ":" + (pubat[d] < 0 ? std::string("-") : std::to_string(pubat[d])) + "/" + pv[d] + "/" +
+               (ctx.data[d]->ready() ? content(d) : std::string("-"));
+      }
+      printf("%s ok steps=0 pre=0 | %s | pubmove=%d late=%d\n", id.c_str(), out.c_str(), !pubmove, !late);
+      fflush(stdout);
+      graph.reset();
+      continue;
+    }
     std::string out;
-    bool once = true, dataonce = true, wait_ok = true, fin_ok = true, tgt_ready = true;
+    bool once = true, dataonce = true, wait_ok = true, fin_ok = true, tgt_ready = true, observed = true;
     unsigned long long steps = 0, pre = 0;
     for (int cyc = 0; cyc < cycles; ++cyc) {
       if (cyc > 0) graph->reset();
@@ -327,6 +439,8 @@ int main() {
         cl.wait();
         g_wait_returned = true;
         if (ctx.in_process != 0 || !exec.q.empty()) wait_ok = false;
+        for (auto& th : ctx.threads) th.join();
+        ctx.threads.clear();
         stop = true;
       });
       for (int k = 0; k < workers; ++k)
@@ -386,6 +500,25 @@ int main() {
           if (s != e) dataonce = false;
         }
       }
+      // value-observed: what a processor saw through its dependencies equals the final content of those data
+      for (size_t v = 0; v < nv; ++v) {
+        if (ctx.runs[v] < 1) continue;
+        std::string exp; bool known = true;
+        for (size_t i = 0; i < ctx.vs[v].deps.size() && known; ++i) {
+          const DepD& dd = ctx.vs[v].deps[i];
+          bool est = true;
+          if (dd.cnd >= 0) {
+            GraphData* cd = ctx.data[dd.cnd];
+            if (!cd || !cd->ready()) { known = false; break; }
+            const int64_t* cv = cd->value<int64_t>(); est = ((cv != nullptr && *cv != 0) == dd.ev);
+          }
+          GraphData* td = ctx.data[dd.tgt];
+          if (est && (!td || !td->ready())) { known = false; break; }
+          const int64_t* tv = est ? td->value<int64_t>() : nullptr;
+          exp += (i ? "," : "") + (tv ? std::to_string(*tv) : std::string("N"));
+        }
+        if (known && exp != ctx.inputs[v]) observed = false;
+      }
       out += " ran=";
       bool first = true;
       for (size_t v = 0; v < nv; ++v) {
@@ -399,8 +532,8 @@ int main() {
       for (int x : injvalid) out += std::to_string(x);
       if (inflight) out += " xp=" + std::to_string((int)g_xpend) + " xl=" + std::to_string((int)g_xlate);
     }
-    printf("%s ok steps=%llu pre=%llu | %s | once=%d deps=%d flag=%d input=%d dataonce=%d wait=%d fin=%d tgtready=%d\n", id.c_str(),
-           steps, pre, out.c_str(), once, ctx.mon_deps, ctx.mon_flag, ctx.mon_input, dataonce, wait_ok, fin_ok, tgt_ready);
+    printf("%s ok steps=%llu pre=%llu | %s | once=%d deps=%d flag=%d input=%d dataonce=%d wait=%d fin=%d tgtready=%d sealed=%d observed=%d\n", id.c_str(),
+           steps, pre, out.c_str(), once, ctx.mon_deps, ctx.mon_flag, ctx.mon_input, dataonce, wait_ok, fin_ok, tgt_ready, ctx.mon_sealed, observed);
     fflush(stdout);
     // x mode (one case per process): after a premature finish the closure / graph may be in a state where their
     // destructors wait forever outside the scheduler; the case's line is out, leave without running them
